@@ -1,0 +1,23 @@
+//go:build verif
+
+package tai64n
+
+import "time"
+
+// VerifConstants exposes base and whitener mask (build tag verif only).
+type VerifConst struct {
+	Name string
+	Val  uint64
+}
+
+func VerifConstants() []VerifConst {
+	return []VerifConst{
+		{"base", base},
+		{"whitenerMask", uint64(whitenerMask)},
+	}
+}
+
+// VerifStamp exposes the unexported stamp function.
+func VerifStamp(t time.Time) Timestamp {
+	return stamp(t)
+}
